@@ -40,7 +40,8 @@ func (cl *Client) Request(method, url string) (string, error) {
 		_ = conn.Close()
 	}()
 
-	if err := conn.SetDeadline((time.Now().Add(defaultTimeout))); err != nil {
+	deadline := time.Now().Add(defaultTimeout)
+	if err := conn.SetDeadline(deadline); err != nil {
 		return "", fmt.Errorf("set deadline failed: %w", err)
 	}
 
@@ -55,7 +56,11 @@ func (cl *Client) Request(method, url string) (string, error) {
 
 	response, err := http.ReadResponse(bufio.NewReader(conn), request)
 	if err != nil {
-		if err, ok := err.(net.Error); ok && err.Timeout() {
+		// When the deadline expires in the middle of a header line, the
+		// parser reports the partial line as malformed instead of the
+		// timeout: an error after the deadline is a timeout either way
+		// (the peer is alive but slow, which is not "no peer").
+		if err, ok := err.(net.Error); (ok && err.Timeout()) || !time.Now().Before(deadline) {
 			return "", fmt.Errorf("request timeout: %w", ErrTimeout)
 		}
 		return "", fmt.Errorf("read response failed: %w", err)
